@@ -195,58 +195,40 @@ spif_mbuff_init_from_buff(spif_mbuff_t self, spif_byteptr_t buff, spif_memidx_t 
 spif_bool_t
 spif_mbuff_init_from_fp(spif_mbuff_t self, FILE *fp)
 {
-    long file_pos;
-    spif_memidx_t file_size;
-
     ASSERT_RVAL(!SPIF_MBUFF_ISNULL(self), FALSE);
     ASSERT_RVAL((fp != (FILE *) NULL), FALSE);
     /* ***NOT NEEDED*** spif_obj_init(SPIF_OBJ(self)); */
     spif_obj_set_class(SPIF_OBJ(self), SPIF_CLASS(SPIF_MBUFFCLASS_VAR(mbuff)));
 
-    file_pos = ftell(fp);
-    LOWER_BOUND(file_pos, 0);
-    if (fseek(fp, 0L, SEEK_END) < 0) {
-        spif_byteptr_t p;
-        size_t cnt = 0;
+    /* One loop for every kind of input (regular file, pipe, tty, socket):  read until the
+       input ends, growing the block geometrically.  The read position is never moved, so the
+       buffer holds exactly what lies between the current position and the end of the input. */
+    self->size = buff_inc;
+    self->len = 0;
+    self->buff = (spif_byteptr_t) MALLOC(self->size);
 
-        D_OBJ(("Unable to seek to EOF -- %s.\n", strerror(errno)));
-        self->size = buff_inc;
-        self->len = 0;
-        self->buff = (spif_byteptr_t) MALLOC(self->size);
+    for (;;) {
+        size_t cnt;
 
-        for (p = self->buff; (cnt = fread(p, 1, buff_inc, fp)) > 0; p += buff_inc) {
-            self->len += cnt;
-            if (feof(fp)) {
-                break;
-            } else if (ferror(fp)) {
-                libast_print_warning("read failed:  %s.\n", strerror(errno));
-                break;
-            } else {
-                self->size += buff_inc;
-                self->buff = (spif_byteptr_t) REALLOC(self->buff, self->size);
-            }
-        }
-        self->size = self->len;
-        if (self->size) {
+        if ((self->size - self->len) < (spif_memidx_t) buff_inc) {
+            self->size += self->size;
             self->buff = (spif_byteptr_t) REALLOC(self->buff, self->size);
-        } else {
-            FREE(self->buff);
         }
+        cnt = fread(self->buff + self->len, 1, buff_inc, fp);
+        self->len += cnt;
+        if (cnt < buff_inc) {
+            /* Short count:  end of file, or an error. */
+            if (ferror(fp)) {
+                libast_print_warning("read failed:  %s.\n", strerror(errno));
+            }
+            break;
+        }
+    }
+    self->size = self->len;
+    if (self->size) {
+        self->buff = (spif_byteptr_t) REALLOC(self->buff, self->size);
     } else {
-        file_size = ftell(fp);
-        fseek(fp, file_pos, SEEK_SET);
-        LOWER_BOUND(file_size, 0);
-        if (file_size <= 0) {
-            spif_mbuff_init(self);
-            return FALSE;
-        }
-        self->len = self->size = file_size;
-        self->buff = (spif_byteptr_t) MALLOC(self->size);
-
-        if (fread(self->buff, file_size, 1, fp) < 1) {
-            FREE(self->buff);
-            return FALSE;
-        }
+        FREE(self->buff);
     }
     return TRUE;
 }
